@@ -20,7 +20,7 @@ func init() {
 		Explanation: "Identity values come from App Engine; what the repository owns is that every sensitive operation is behind the right check with the right value — a dominance + provenance property decided for all callers, backends, IDs and call orders at once: " +
 			"(A) in each agent endpoint the call of checkBackendID dominates every store call and helper call, and nothing but the 401 answer is reachable from its failure branch; (B) every argument in a backendID parameter position of those calls is result 0 of that checkBackendID call; inside checkBackendID the ID returned is the one checked, the user checked is the OAuth e-mail, and the success return is dominated by err==nil (twice) and allowed==true; the store compares the record's BackendUser with == and answers false for a missing record; " +
 			"(C) failure answers 401 and nothing else; (D) admin CRUD handlers are unreachable when isAdminRequest is false (partial evaluation), the cron arm is the only exception and api.yaml restricts /cron/.* to login: admin; (E) end users: nil user ⇒ 401 before any store call, LookupBackend gets the signed-in e-mail, later store calls use the backend it returned, the store filters backends by EndUser = parameter / allUsers; " +
-			"(S) the caching store is the persistent store's sibling: one field, every method delegates with its own parameters in the same positions, access decisions and routing are pure delegations (no cache, no memo), memcache keys are built by the same key function from the same roles on read and write; (R) service routing by module name.",
+			"(S) the caching store is the persistent store's sibling: one field, every method delegates with its own parameters in the same positions, access decisions and routing are pure delegations (no cache, no memo), memcache keys are built by the same key function from the same roles on read and write; (R) service routing by module name; (K) the GET response cache cannot serve one user another user's answer: its key renders the user's e-mail and the URL themselves, both with %q.",
 		Assumptions: []string{"App Engine user.CurrentOAuth / user.Current / user.IsAdmin return the caller's verified identity", "datastore Get/Query semantics"},
 		Run:         runC17,
 	})
@@ -82,6 +82,8 @@ func runC17(c *Ctx) {
 	c.Rule("C17.E", "end users only reach their own or shared backends", 7)
 	c.Rule("C17.S", "sibling agreement of the two Store implementations; injective keys", 18)
 	c.Rule("C17.R", "routing of service names", 4)
+	c.Rule("C17.K", "the GET response cache cannot serve one user another user's answer: injective key of (user e-mail, URL), components verbatim (= C01.C, C19.R)", 6)
+	ruleAppResponseCacheKey(c, p, "C17.K")
 	cbName := appPkg + ".checkBackendID"
 
 	for _, ep := range []string{"pendingHandler", "requestHandler", "responseHandler"} {
